@@ -650,6 +650,10 @@ func ruleNoPrune(c *Ctx) {
 		}
 		for k, cs := range mergeSites {
 			key := fmt.Sprintf("merge: prune call #%d", k+1)
+			if !b.behindFailedObjectProbe(mf.merge, cs) {
+				l.add("R-NOPRUNE", b.Name, key, b.posOf(cs), Violated, "merge prunes the patch value on a path on which the target may be an object: the null members of the patch are dropped before they are merged into the target, so they can no longer delete its members (pruning belongs to values that are stored as new: behind the failed object probe of the target)", true)
+				continue
+			}
 			l.add("R-NOPRUNE", b.Name, key, b.posOf(cs), Excepted, "reviewed exception: merge prunes the patch value when the target is not an object; C07 excludes that case (wherever P2 holds an object, P1 holds an object or nothing), and for MergePatch it is what RFC 7396 requires", true)
 		}
 		// apply mode: a member stored as a new value was pruned first
@@ -1031,6 +1035,57 @@ func ruleCmpShape(c *Ctx) {
 				v, why = Violated, "no return of the mismatch error: an array paired with an object is handed to one of the diff functions"
 			}
 			l.add("R-CMPSHAPE", b.Name, key, b.rel(cm.Pos()), v, why, true)
+		}
+		// … and nothing is accepted for mixed roots: every return that can carry a nil error lies
+		// where the two root predicates are known, and known to agree
+		{
+			key := "CreateMergePatch: every accepting return lies where both roots are arrays or neither is"
+			// the predicate results: calls of one library predicate on each of the two parameters
+			pred := map[int]ssa.Value{}
+			allInstrs(cm, func(i ssa.Instruction) {
+				call, ok := i.(*ssa.Call)
+				if !ok || len(call.Call.Args) != 1 {
+					return
+				}
+				f := call.Call.StaticCallee()
+				if f == nil || f.Pkg != b.Lib || f.Signature.Results().Len() != 1 || typeShort(f.Signature.Results().At(0).Type()) != "bool" {
+					return
+				}
+				if p, ok := call.Call.Args[0].(*ssa.Parameter); ok {
+					pred[paramIdx(p)] = call
+				}
+			})
+			bad := ""
+			if len(pred) < 2 {
+				bad = "the two root predicates (is this text an array?) applied to the two parameters were not found"
+			}
+			ei := errResultIndex(cm)
+			n := 0
+			for _, r := range liveReturns(cm) {
+				if bad != "" || ei < 0 || b.definitelyNonNilErr(retVal(r, ei), r.Block(), 0) {
+					continue
+				}
+				n++
+				known := map[int]*bool{}
+				for _, f := range dominatingFacts(r.Block()) {
+					for pi, pv := range pred {
+						if f.V == pv {
+							t := f.True
+							known[pi] = &t
+						}
+					}
+				}
+				if known[0] == nil || known[1] == nil {
+					bad = "the return at " + b.posOf(r) + " can succeed without both root predicates having been decided: an object paired with an array is handed to one of the diff functions (or diffed some other way) instead of being rejected"
+				} else if *known[0] != *known[1] {
+					bad = "the return at " + b.posOf(r) + " can succeed although one root is an array and the other is not"
+				}
+			}
+			if bad != "" {
+				l.add("R-CMPSHAPE", b.Name, key, b.rel(cm.Pos()), Violated, bad, true)
+			} else {
+				l.add("R-CMPSHAPE", b.Name, key, b.rel(cm.Pos()), Discharged, fmt.Sprintf("%d accepting return(s), each dominated by facts that make the two root predicates equal", n), true)
+			}
 		}
 		// array form: length equality
 		{
